@@ -75,10 +75,12 @@ inductive NewOut where
 /-- `qhasharr(memory, memsize)` with `memsize > 0`: the region is initialised BEFORE the handle is
     allocated, so on ENOMEM the region holds the empty table and no handle exists. The first
     component is the region's new contents (`none` = region untouched). -/
-def newF (plan : Plan) (memsize : Nat) : Option Img × NewOut × List Ev :=
-  match initMem memsize with
+def newOf (plan : Plan) : Option Img → Option Img × NewOut × List Ev
   | none => (none, .einval, [])
   | some img => if plan 1 then (some img, .enomem, [.alloc false]) else (some img, .ok, [.alloc true])
+
+def newF (plan : Plan) (memsize : Nat) : Option Img × NewOut × List Ev :=
+  newOf plan (initMem memsize)
 
 /-- `tbl->free(tbl)` -/
 def freeEvs : List Ev := [.free]
